@@ -22,7 +22,8 @@ RULE = (
     "Each case is a JSON script: primitive + parameters, and per worker an arrival tick (1 tick = 1/512 s, many "
     "workers on the same tick) and a list of steps (blocking acquire / try_acquire, amount, priority, hold ticks "
     "0 or positive, gap ticks); for request-shaped components (Bulkhead, ThreadPool, Server) a list of arrivals "
-    "with service times and weights.  The script is executed by harness worker processes inside a real Simulation "
+    "with service times and weights; the concurrency models are also driven directly by acquire/release/has_capacity/"
+    "set_limit op strings against plain counting.  The script is executed by harness worker processes inside a real Simulation "
     "(auto-terminating, control hooks attached) under EngineProbe with an instant cap.  Non-trivial: at some logical "
     "moment >= 2 acquirers were blocked by the primitive at once while a holder with a positive scripted hold held "
     "it (measured from the ledger; for Barrier/Condition: >= 2 parties parked at once and simulated time had to "
@@ -117,7 +118,6 @@ def run_resource(case: dict) -> Result:
     amounts = case.get("amounts", "int")
     tol = EPS * max(1.0, cap) if amounts == "decimal" else 0
     kind_shape = {"int": "int-amounts", "binary": "float-amounts-exact", "decimal": "float-amounts-decimal"}[amounts]
-    arrivals_sim = simultaneous([w["at"] for w in case["workers"]])
     flagged: set = set()
 
     def flag(oracle, shape, detail, witness=None):
@@ -287,7 +287,6 @@ def run_resource(case: dict) -> Result:
     mb = max_overlap_blocked(led.reqs)
     res.nontrivial = mb >= 2 and any(r.hold > 0 and r.s_grant is not None for r in led.reqs)
     res.seen("components", comp)
-    _ = arrivals_sim
     return res
 
 
